@@ -35,7 +35,7 @@ CLAIMS["C11"] = dict(
     ref="DESIGN.md §5 C11",
 )
 CLAIMS["C18"] = dict(
-    text="read_from of VecZnx / ScalarZnx / MatZnx on streams whose every byte is symbolic (all header words incl. products overflowing usize), at every enumerated truncation point: no panic/overflow/out-of-bounds, Err leaves the metadata unchanged, Ok leaves dimensions consistent with the buffer (size <= max_size, n*cols*max_size*8 within the buffer) and accessors in bounds; write->read round trips into equal, larger and re-used receivers reproduce content and dimensions. The poulpy-core wrappers GLWE, LWE and GLWECompressed are decided on fully symbolic streams too: Err leaves every metadata field (base2k, rank, seed, dimensions) unchanged, Ok leaves dimensions consistent with the buffer. poulpy-bin-fhe BlindRotationKey (1-2 GGSW elements): never a panic, Err leaves the recorded distribution unchanged, Ok only when the stream announces exactly the receiver's number of elements.",
+    text="read_from of VecZnx / ScalarZnx / MatZnx on streams whose every byte is symbolic (all header words incl. products overflowing usize), at every enumerated truncation point: no panic/overflow/out-of-bounds, Err leaves the metadata unchanged, Ok leaves dimensions consistent with the buffer (size <= max_size, n*cols*max_size*8 within the buffer) and accessors in bounds; write->read round trips into equal, larger and re-used receivers reproduce content and dimensions. The poulpy-core wrappers GLWE, LWE and GLWECompressed are decided on fully symbolic streams too: Err leaves every metadata field (base2k, rank, seed, dimensions) unchanged, Ok leaves dimensions consistent with the buffer. poulpy-bin-fhe BlindRotationKey and BlindRotationKeyCompressed (1-2 GGSW / seed-compressed GGSW elements): never a panic, Err leaves the recorded distribution unchanged, Ok only when the stream announces exactly the receiver's number of elements.",
     note="Small concrete receivers; stream length enumerated (field boundaries +-1). std::fmt::format stubbed (error messages), io::Result forgotten. The other poulpy-core wrappers (GGLWE/GGSW/keys, compressed matrices) and the other poulpy-bin-fhe key readers are not encoded.",
     technique=KANI + "; stream bytes fully symbolic",
     ref="DESIGN.md §5 C18",
@@ -145,7 +145,7 @@ m = {
         "guard": "verif-hooks (cargo feature of the same name on poulpy-bin-fhe, poulpy-core and poulpy-ckks; off by default, not a default feature of any crate)",
         "enable": "harness crates hk_core / hk_ckks / hk_binfhe and smt/bdd_dump depend on the /repo crates by path with features=[\"verif-hooks\"]; hk_hal and hk_avx need no hook",
         "baseline_off_cmd": "cd /repo && cargo test --workspace --no-fail-fast --offline",
-        "source_commits": ["87db623", "9db2020", "6ee2064", "a8383a3", "fbcca4f", "3ebb77d", "3e33c58"],
+        "source_commits": ["87db623", "9db2020", "6ee2064", "a8383a3", "fbcca4f", "3ebb77d", "3e33c58", "459ce53"],
         "add_only": True,
     },
     "engines": [
